@@ -615,9 +615,6 @@ class AbsEval(ConstEval):
 
     # ------------------------------------------------------------------ statements
     def exec_stmt(self, s, env, mod):
-        if isinstance(s, ast.Expr) and isinstance(s.value, ast.Yield) and getattr(self, "_yields", None):
-            self._yields[-1].append(self.eval(s.value.value, env, mod) if s.value.value is not None else None)
-            return
         if isinstance(s, ast.Raise):
             if s.exc is None:
                 raise AbsRaise("reraise")
@@ -846,15 +843,6 @@ class AbsEval(ConstEval):
         h = self.func_hooks.get((f.mod, f.node.name))
         if h is not None:
             return h(list(args), dict(kw or {}))
-        if any(isinstance(n, (ast.Yield, ast.YieldFrom)) for n in ast.walk(f.node)):
-            # a generator function: its items, collected eagerly (sound when the generator body does not depend on what the consumer does between items)
-            self._yields = getattr(self, "_yields", [])
-            self._yields.append([])
-            try:
-                super().call_func(f, args, kw)
-            finally:
-                items = self._yields.pop()
-            return items
         return super().call_func(f, args, kw)
 
     # ------------------------------------------------------------------ entry
